@@ -19,7 +19,9 @@ def run(chk, replay=None):
     k2v2.standard_k2v2(chk)   # second-generation model Calc2 (lifetimes, contexts, more algorithms): tie (theorems: Properties_*_calc2.v)
 
 
-EXPECT = {"sor_prestopped_then_throw": "d", "lvst_stop_while_running_d": "d", "lvst_stop_while_running_v": "v", "lvst_prestopped_d": "d"}    # every other probe: a registration threw with nothing stopped -> set_error
+EXPECT = {"sor_prestopped_then_throw": "d", "lvst_stop_while_running_d": "d", "lvst_stop_while_running_v": "v", "lvst_prestopped_d": "d",
+          "lvstw_stop_while_running_d": "d", "lvstw_stop_while_running_v": "v", "lvstw_prestopped_d": "d",
+          "lvst_nostop_v": "v", "lvstw_nostop_v": "v", "lvstw_nostop_d": "d"}    # every other probe: a registration threw with nothing stopped -> set_error
 
 def fault_probe(chk):
     """harness/k3_c04_probe.cpp: stop-callback hygiene on fault paths (throwing callback registration in stop_on_request):
@@ -56,7 +58,7 @@ def fault_probe(chk):
             found = True
         else:
             chk.cov["traces_validated_against_impl"] += 1
-    if (rc != 0 or "END" not in out or n < 10) and not found:   # the program stops at the first probe that leaves a registration behind
+    if (rc != 0 or "END" not in out or n < 16) and not found:   # the program stops at the first probe that leaves a registration behind
         p = chk.replay_file("c04probe_run", {"kind": "probe-crash", "rc": rc, "out": out[-2000:], "replay": exe})
         chk.violation("c04probe/crash", p, text="fault probe program failed rc=%d after %d probes" % (rc, n))
     chk.cov["fault_probes"] = n
